@@ -16,10 +16,10 @@ LEVEL_TEXT = ('Lean 4 theorems about an executable list model of Spectrum whose 
               'one value per wavelength) is preserved by crop/trim/pad/append/resample and by every history, also when an operation is refused; '
               'crop keeps exactly the closed range and is covariant under a change of unit (crop_scale_covariant); trim keeps first-to-last '
               'sample above tolerance; retained samples are unaltered; `integrate s a b` is linear in the values and additive at a sample '
-              '(integrate_linear, integrate_additive_at_sample), the trapezoid sum is exact on globally linear data; both rules return one bin per centre (bin_length); trapezoid bins of a non-negative spectrum are non-negative (bin_trapz_nonneg, about `bin` itself) '
+              '(integrate_linear, integrate_additive_at_sample) and exact for piecewise-linear data (trapz_exact_piecewise_linear, integrate_exact_piecewise_linear: equal to the sum over segments of the increments of a primitive of each segment\'s line; trapz_exact_linear_segment for one global line); both rules return one bin per centre (bin_length); trapezoid bins of a non-negative spectrum are non-negative (bin_trapz_nonneg, about `bin` itself), exact for a spectrum linear across every bin (bin_trapz_exact_linear); Simpson bins with symmetric ends are non-negative (bin_simps_nonneg_symmetric) '
               'and, with power preservation, sum to integrate over the centres\' span; refusals leave the spectrum (append/resample/trim/pad) or an emptied grid (crop).')
-LEVEL_NOTE = ('partial: exactness of trapezoid bins for spectra linear across each bin, exactness for piecewise-linear data, '
-              'non-negativity/exactness of Simpson bins and every scipy.integrate.simpson clause are oracle-only. Open known finding KF-C15-bin-integer-centres. '
+LEVEL_NOTE = ('partial: non-negativity of Simpson bins for ends="inside" / integer-dtype centres / under preserve_power, exactness of Simpson bins '
+              'and every scipy.integrate.simpson clause are oracle-only. Open known finding KF-C15-bin-integer-centres. '
               'Trusted: scipy interp1d(kind=linear) = piecewise-linear interpolant with fill; np.linspace, np.delete, np.trapz as modelled.')
 TECHNIQUE = 'Lean 4 proof (induction over lists and over operation histories) about a hand model + per-step differential correspondence at ℚ'
 GEN = ['SpectrumOps', 'Units']
@@ -33,14 +33,11 @@ RULE = ('streams: histories, integrate, setvalue (sample/bin, assign `value`/`wa
 TRUSTED = ['scipy.interpolate.interp1d(kind="linear", bounds_error=False, fill_value=…) is the piecewise-linear interpolant with fill',
            'np.linspace(a,b,n)[i] = a + i(b-a)/(n-1); np.delete/np.where/np.append/np.hstack semantics; np.trapz',
            'scipy.integrate.simpson (used by integrate(method="simps") and by preserve_power with simps) is taken from the implementation']
-UNPROVEN = ['non-negativity of Simpson bins (trapezoid: bin_trapz_nonneg, about `bin` itself, with and without power preservation)',
-            'exactness of integration for piecewise-linear (not globally linear) data',
+UNPROVEN = ['non-negativity of Simpson bins for ends="inside", integer-dtype centres, or with preserve_power (symmetric ends without it: bin_simps_nonneg_symmetric)',
             'Simpson binning with integer-dtype centres (open known finding KF-C15-bin-integer-centres: mid-points truncated)',
-            'Simpson bins: positivity of the weights and exactness for linear spectra on uniform centres (oracle only)',
-            'trapezoid bins are exact for spectra linear across each bin (oracle only; the theorem proved is exactness of the trapezoid '
-            'integral on linear data)',
+            'Simpson bins: exactness for linear spectra on uniform centres (oracle only)',
             'integrate(method="simps") (scipy.integrate.simpson is not modelled)',
-            'non-negativity of Simpson bins under preserve_power (scipy.integrate.simpson can be negative on non-uniform data)']
+            ]
 ASSUMPTIONS = ['append() ignores the wavelength unit of the appended spectrum (its numbers are appended as they are and keep the caller\'s unit label): generated (tag append:other-unit), model and oracle follow the code — the result is well-formed, which is all the property claims; reported as an observation',
                'preserve_power divides by the sum of the un-normalised bins: when that sum is zero (e.g. all centres outside the data with fill 0) the code returns nan/inf; such calls are counted (tag bin:non-finite) and only checked for agreement with the model\'s zero raw sum',
                'bin(interp_method="simps", preserve_power=True) raises ValueError (from scipy.integrate.simpson) when no data sample lies inside the span of the centres; such calls are outside the modelled scope',
